@@ -64,7 +64,15 @@ def run_impl(pystog, case):
         y = [int(v) for v in y]
     elif case.get("int_y") == "array":
         y = np.array([int(v) for v in y], dtype=np.int64)
-    xo, yo = pystog.Pre_Proc.rebin(list(case["x"]), y, case["xmin"], case["xdiv"], case["xmax"])
+    form = (len(case["x"]) + int(case["desc"].get("bins", 0))) % 3
+    if form == 0:       # on the class, positionally
+        xo, yo = pystog.Pre_Proc.rebin(list(case["x"]), y, case["xmin"], case["xdiv"], case["xmax"])
+    elif form == 1:     # on an instance that has been used before, by keyword, the abscissae as an array
+        pp = pystog.Pre_Proc()
+        pp.rebin([0.0, 1.0, 2.0, 3.0], [1.0, 2.0, 0.5, 4.0], 0.0, 1.0, 3.0)
+        xo, yo = pp.rebin(x=np.array(case["x"], float), y=y, xmin=case["xmin"], xdiv=case["xdiv"], xmax=case["xmax"])
+    else:               # on a fresh instance, the window as NumPy scalars
+        xo, yo = pystog.Pre_Proc().rebin(list(case["x"]), y, np.float64(case["xmin"]), np.float64(case["xdiv"]), np.float64(case["xmax"]))
     xo, yo = np.asarray(xo, float), np.asarray(yo, float)
     return {"xout": xo.tolist(), "yout": yo.tolist()}
 
